@@ -57,6 +57,19 @@ class Body:
         return '<Body %s>' % self.path
 
 
+_KNOWN = None
+
+
+def known_fns():
+    """Function paths of the reference tree (pk/known_fns.txt): anything else crate-local is a helper of its callers."""
+    global _KNOWN
+    if _KNOWN is None:
+        p = os.path.join(os.path.dirname(os.path.abspath(__file__)), 'known_fns.txt')
+        with open(p) as fh:
+            _KNOWN = set(l.strip() for l in fh if l.strip() and not l.startswith('#'))
+    return _KNOWN
+
+
 def callee_info(term):
     """Return dict(declared=..., resolved=..., trait=..., self_ty=..., gargs=[...]) for a Call."""
     f = term['func']
@@ -66,7 +79,7 @@ def callee_info(term):
 
 
 class Facts:
-    def __init__(self, facts_dir):
+    def __init__(self, facts_dir, normalise=True):
         self.dir = facts_dir
         self.crates = []
         self.bodies = {}      # normalised path -> Body
@@ -124,6 +137,11 @@ class Facts:
                 s['crate_kind'] = kind
                 self.statics.append(s)
         self.kinds = set(c['kind'] for c in self.crates)
+        self.helpers = {}
+        self.normalised = []
+        if normalise:
+            from .inline import normalise as _normalise
+            _normalise(self, known_fns())
 
     # -- naming -----------------------------------------------------------------------
     @staticmethod
@@ -178,8 +196,8 @@ class Facts:
         return r[0]
 
     def closures_of(self, body):
-        pre = body.path + '::{closure#'
-        return [b for b in self.bodies.values() if b.path.startswith(pre)]
+        pres = [body.path + '::{closure#'] + [h + '::{closure#' for h in getattr(body, 'inlined', [])]
+        return [b for b in self.bodies.values() if any(b.path.startswith(pre) for pre in pres)]
 
     def trait_impl_methods(self, trait_suffix, method):
         """All workspace bodies implementing `method` of a trait whose path ends with trait_suffix."""
